@@ -439,10 +439,10 @@ Proof.
     + split.
       * rewrite U. cbn [upd_scope set_scopes scopes]. rewrite upd_same. cbn [sc_caught s_caught].
         now rewrite orb_true_r.
-      * intros x Hx. rewrite U. cbn [upd_scope set_scopes scopes]. rewrite upd_other by exact Hx.
-        change (upd (scopes ?a) c ?v x) with (scopes (upd_scope a c (fun _ => v)) x).
-        specialize (X6 x). cbn [upd_scope set_scopes scopes] in X6. rewrite upd_other in X6 by exact Hx.
-        exact X6.
+      * intros x Hx. rewrite U.
+        assert (C2 : forall a, s_caught (scopes (upd_scope a c (sc_caught true)) x) = s_caught (scopes a x)).
+        { intros a. cbn [upd_scope set_scopes scopes]. now rewrite upd_other. }
+        now rewrite C2, X6.
     + split.
       * now rewrite U, X6, orb_false_r.
       * intros x _. now rewrite U, X6.
@@ -469,6 +469,48 @@ Proof.
     apply Fin. destruct (absorbed (absorb_res exc)); [|exact Q6].
     eapply cframe_trans; [exact Q6|]. apply cframe_upd_scope. intros k. auto.
   - apply Fin, cframe_xframe. eapply xframe_trans; [exact X|apply exit_handover_xframe].
+Qed.
+
+(* ---- BaseExceptionGroup.split keeps every leaf on exactly one side ---- *)
+Lemma exn_ind' (P : exn -> Prop) :
+  (forall o, P (ECancel o)) -> (forall n, P (EErr n)) -> P ERuntime -> P ETimeout ->
+  (forall l, Forall P l -> P (EGroup l)) -> forall e, P e.
+Proof.
+  intros Hc He Hr Ht Hg.
+  refine (fix IH (e : exn) : P e :=
+            match e with
+            | ECancel o => Hc o
+            | EErr n => He n
+            | ERuntime => Hr
+            | ETimeout => Ht
+            | EGroup l => Hg l ((fix go (l : list exn) : Forall P l :=
+                                   match l with
+                                   | [] => Forall_nil P
+                                   | x :: r => Forall_cons x (IH x) (go r)
+                                   end) l)
+            end).
+Qed.
+
+Definition oleaves (o : option exn) : list exn := match o with Some m => leaves m | None => [] end.
+
+Lemma oleaves_group (m : list exn) :
+  oleaves (match m with [] => None | _ => Some (EGroup m) end) = flat_map leaves m.
+Proof. destruct m; reflexivity. Qed.
+
+Theorem split_exn_leaves e :
+  oleaves (fst (split_exn e)) = filter is_anyio_cancel (leaves e) /\
+  oleaves (snd (split_exn e)) = filter (fun x => negb (is_anyio_cancel x)) (leaves e).
+Proof.
+  induction e as [o|n| | |l IH] using exn_ind'.
+  - cbn [split_exn leaves filter]. destruct (is_anyio_cancel (ECancel o)); split; reflexivity.
+  - split; reflexivity.
+  - split; reflexivity.
+  - split; reflexivity.
+  - cbn [split_exn fst snd leaves]. rewrite !oleaves_group.
+    induction IH as [|x r [Hx1 Hx2] _ IHr]; [split; reflexivity|].
+    destruct IHr as [I1 I2]. cbn [map flat_map]. rewrite !filter_app, <- Hx1, <- Hx2.
+    destruct (split_exn x) as [[m|] [q|]]; cbn [fst snd somes flat_map oleaves app];
+      rewrite ?I1, ?I2; split; reflexivity.
 Qed.
 
 (* ====================================================================================================== *)
@@ -562,6 +604,21 @@ Proof.
   replace (S (nscope s)) with ((n + 1) + (nscope s - n)) by lia.
   apply eff_cancelled_from_mono. rewrite (vpath_walk_up s c x n T Hp 1). cbn [eff_cancelled_from].
   now rewrite Hc.
+Qed.
+
+Corollary cancel_only_if_effectively_cancelled_flat s c t :
+  (forall p k, In k (s_children (scopes s p)) -> s_parent (scopes s k) = Some p) ->
+  (forall u x, In u (s_tasks (scopes s x)) -> k_cur (tasks s u) = Some x) ->
+  s_cancelled (scopes s c) = true ->
+  tasks (deliver_top s c) t <> tasks s t ->
+  exists x n, k_cur (tasks s t) = Some x /\ vpath s c x n /\ n <= nscope s /\
+              (x = c \/ s_shield (scopes s x) = false) /\
+              eff_cancelled_from (S (nscope s)) s (k_cur (tasks s t)) = true.
+Proof.
+  intros T1 T2 Hc H.
+  destruct (cancel_only_if_effectively_cancelled s c t (mk_TreeOK s T1 T2) Hc H) as (x & n & E & Hp & Hn & He).
+  exists x, n. refine (conj E (conj Hp (conj Hn (conj _ He)))).
+  destruct (vpath_open s c x n Hp) as [->|[K _]]; auto.
 Qed.
 
 (* with the depth bound of the tree invariant (every downward path is shorter than nscope) this is the machine's
